@@ -10,7 +10,7 @@ import (
 	"github.com/icon-project/goloop/consensus"
 )
 
-func directedNames() []string { return []string{"stale-lock"} }
+func directedNames() []string { return []string{"stale-lock", "old-polka", "split-precommit"} }
 
 func directedShape(name string) (n int, byz []int, heights int) {
 	switch name {
@@ -24,6 +24,10 @@ func directedScenario(style string) func(*netw) {
 	switch style {
 	case "directed:stale-lock":
 		return scenarioStaleLock
+	case "directed:old-polka":
+		return scenarioOldPolka
+	case "directed:split-precommit":
+		return scenarioSplitPrecommit
 	}
 	return nil
 }
@@ -122,8 +126,11 @@ func probe() {
 	var cfg netCfg
 	cfg.N, cfg.Heights, cfg.Style, cfg.MaxWall, cfg.Seed = 4, 2, "fair", 40, 1
 	cfg.Byz = []int{3}
-	fmt.Sscanf(os.Getenv("C01_PROBE"), "%d %d %s %d %d", &cfg.N, &cfg.Heights, &cfg.Style, &cfg.Seed, &cfg.CrashPM)
-	cfg.WindowPM = cfg.CrashPM * 4
+	cfg.WindowPM = -1
+	fmt.Sscanf(os.Getenv("C01_PROBE"), "%d %d %s %d %d %d %d", &cfg.N, &cfg.Heights, &cfg.Style, &cfg.Seed, &cfg.CrashPM, &cfg.WindowPM, &cfg.Byz[0])
+	if cfg.WindowPM < 0 {
+		cfg.WindowPM = cfg.CrashPM * 4
+	}
 	if cfg.N == 7 {
 		cfg.Byz = []int{2, 5}
 	}
@@ -239,7 +246,13 @@ func (nw *netw) voteMsgs(h int64, round int32, typ int, blk int) []*consensus.Vo
 //	    (2,B) and prevotes B: no polka for C'.  Without it V comes back locked
 //	    on (0,B), the round-1 nil polka unlocks it, V prevotes C', and V and C
 //	    finalize C' while A has finalized B.
-func scenarioStaleLock(nw *netw) {
+func scenarioStaleLock(nw *netw) { scenarioLock(nw, true) }
+
+// scenarioOldPolka: the same schedule WITHOUT the crash: the round-1 nil polka
+// reaches V while it is locked on (2,B); it must not unlock (1 < 2).
+func scenarioOldPolka(nw *netw) { scenarioLock(nw, false) }
+
+func scenarioLock(nw *netw, withCrash bool) {
 	const A, V, Z, C = 1, 2, 3, 0
 	const pv, pc = 0, 1
 	sec := time.Second
@@ -342,8 +355,10 @@ func scenarioStaleLock(nw *netw) {
 		return
 	}
 	// ---- V crashes and restarts; the delayed nil prevote of round 1 arrives
-	nw.crashNow(nw.nodes[V], cleanCrashPlan().Spec)
-	nw.restartNode(nw.nodes[V])
+	if withCrash {
+		nw.crashNow(nw.nodes[V], cleanCrashPlan().Spec)
+		nw.restartNode(nw.nodes[V])
+	}
 	nw.note("stale-lock: V after restart: round=%d step=%d lock=(%d,%s)", nw.st(V).Round, nw.st(V).Step, nw.st(V).LockedRound, nw.nameOfKey(nw.st(V).LockedID))
 	nw.give(V, voteOfRound(A, 1, pv))
 	nw.give(V, voteOfRound(C, 1, pv))
@@ -378,4 +393,88 @@ func scenarioStaleLock(nw *netw) {
 	nw.give(C, voteOfRound(V, 3, pc))
 	nw.give(C, voteOfRound(Z, 3, pc))
 	nw.waitFor(1500*time.Millisecond, func() bool { return nw.nodes[V].fin[1] || nw.nodes[C].fin[1] })
+}
+
+// scenarioSplitPrecommit: precommits for one block spread over DIFFERENT
+// rounds must not add up to a commit (height 1, A=1, V=2, Z=3 Byzantine, C=0):
+//
+//	r0  A proposes B; only V sees the polka: V precommits B in round 0; A, C nil
+//	r1  V re-proposes B (POL 0); A, V, C prevote B; only A sees the polka: A
+//	    precommits B in round 1; V and C time out: nil
+//	    Z precommits B in round 2 (a future round) to C.
+//	    C now holds precommits for B of V (round 0), A (round 1), Z (round 2):
+//	    three validators, but never more than one per round.  C must not commit.
+func scenarioSplitPrecommit(nw *netw) {
+	const A, V, Z, C = 1, 2, 3, 0
+	const pv, pc = 0, 1
+	sec := time.Second
+	step := func(ok bool, what string) bool {
+		if !ok {
+			nw.note("split-precommit: did not reach: %s", what)
+		}
+		return ok
+	}
+	ts := func() int64 { return nw.nowMicro() }
+	isProp := func(round int32) func(p *packet) bool {
+		return func(p *packet) bool {
+			return (p.Kind == "proposal" && p.Round == round) || p.Kind == "part" || (p.Kind == "votelist" && p.Src == V)
+		}
+	}
+	if !step(nw.waitFor(4*sec, func() bool { return len(nw.proposalsOf(1, 0)) > 0 }), "proposal of A in round 0") {
+		return
+	}
+	B := nw.proposalsOf(1, 0)[0]
+	nw.give(V, isProp(0))
+	nw.give(C, isProp(0))
+	if !step(nw.waitFor(4*sec, func() bool { return nw.hasVote(A, 0, pv) && nw.hasVote(V, 0, pv) && nw.hasVote(C, 0, pv) }), "prevotes of round 0") {
+		return
+	}
+	nw.give(V, voteOfRound(A, 0, pv))
+	nw.give(V, voteOfRound(C, 0, pv))
+	if !step(nw.st(V).LockedRound == 0 && nw.st(V).LockedID == B.Key, "V locked on (0,B)") {
+		return
+	}
+	nw.injectVote(nw.mkVote(Z, consensus.VoteTypePrevote, 1, 0, nil, ts()), []int{A, C})
+	nw.give(A, voteOfRound(C, 0, pv))
+	nw.give(A, voteOfRound(Z, 0, pv))
+	nw.give(C, voteOfRound(A, 0, pv))
+	nw.give(C, voteOfRound(Z, 0, pv))
+	if !step(nw.waitFor(4*sec, func() bool { return nw.hasVote(A, 0, pc) && nw.hasVote(C, 0, pc) }), "A and C precommit nil in round 0") {
+		return
+	}
+	nw.injectVote(nw.mkVote(Z, consensus.VoteTypePrecommit, 1, 0, nil, ts()), nil)
+	for _, x := range []int{A, C, V} {
+		x := x
+		nw.give(x, func(p *packet) bool { return p.Kind == "vote" && p.Round == 0 && p.V.Type == pc && p.From != x })
+	}
+	if !step(nw.waitFor(4*sec, func() bool { return nw.st(A).Round >= 1 && nw.st(C).Round >= 1 && nw.st(V).Round >= 1 }), "everybody in round 1") {
+		return
+	}
+	// ---- round 1: V's re-proposal of B (POL round 0) reaches A and C
+	if !step(nw.waitFor(3*sec, func() bool { return len(nw.proposalsOf(1, 1)) > 0 }), "re-proposal of V in round 1") {
+		return
+	}
+	nw.give(A, isProp(1))
+	nw.give(C, isProp(1))
+	if !step(nw.waitFor(4*sec, func() bool { return nw.hasVote(A, 1, pv) && nw.hasVote(C, 1, pv) && nw.hasVote(V, 1, pv) }), "prevotes of round 1") {
+		return
+	}
+	nw.injectVote(nw.mkVote(Z, consensus.VoteTypePrevote, 1, 1, nil, ts()), []int{V, C})
+	nw.give(A, voteOfRound(C, 1, pv))
+	nw.give(A, voteOfRound(V, 1, pv))
+	step(nw.st(A).LockedRound == 1 && nw.st(A).LockedID == B.Key, "A locked on (1,B)")
+	nw.give(V, voteOfRound(A, 1, pv))
+	nw.give(V, voteOfRound(Z, 1, pv))
+	nw.give(C, voteOfRound(A, 1, pv))
+	nw.give(C, voteOfRound(Z, 1, pv))
+	if !step(nw.waitFor(4*sec, func() bool { return nw.hasVote(V, 1, pc) && nw.hasVote(C, 1, pc) && nw.hasVote(A, 1, pc) }), "precommits of round 1 (A: B, V and C: nil)") {
+		return
+	}
+	// ---- C is handed B-precommits of three validators, one per round
+	nw.injectVote(nw.mkVote(Z, consensus.VoteTypePrecommit, 1, 2, B, ts()), []int{C})
+	nw.give(C, voteOfRound(Z, 2, pc))
+	nw.give(C, voteOfRound(V, 1, pc))
+	nw.give(C, voteOfRound(A, 1, pc))
+	nw.pump(300 * time.Millisecond)
+	nw.note("split-precommit: C holds B-precommits of V@0, A@1, Z@2; C finalized=%v", nw.nodes[C].fin[1])
 }
